@@ -1,5 +1,6 @@
 import Svgbob.Proofs.RectSound
 import Svgbob.Proofs.RectStrokes
+import Svgbob.Proofs.BoxComplete
 /-!
 # C05 — rectangles are recognised completely and only where a box is drawn
 
@@ -45,6 +46,16 @@ theorem group_is_the_four_sides (frags : List Frag) (r : Frag) (h : endorseRect 
     (hok : ∀ f ∈ frags, f.StrokeOk) :
     ∀ f ∈ frags, ∃ se ∈ boundsSides frags, ∃ b, f = Frag.line se.1 se.2 b :=
   endorseRect_group_is_sides frags r h hok
+
+/-- **completeness at the endorsement stage, for every box**: the four side lines of any box
+`x0 < x1`, `y0 < y1` (any size, anywhere, each side solid or dashed) form a group that is endorsed
+as exactly the rectangle of that box, dashed iff some side is dashed. (That the sides of a drawn
+box reach this stage as four lines is `C09.run_is_one_line` per side; the composition through the
+fragment order of a whole box is checked by the sweep of the oracle.) -/
+theorem every_box_is_endorsed (x0 x1 y0 y1 : Int) (hx : x0 < x1) (hy : y0 < y1) (bT bL bR bB : Bool) :
+    contactsEndorseRect (boxSides x0 x1 y0 y1 bT bL bR bB) =
+      some (.rect ⟨x0, y0⟩ ⟨x1, y1⟩ false none (bT || bL || bR || bB)) := by
+  simp [contactsEndorseRect, endorseRect_box x0 x1 y0 y1 hx hy]
 
 /-! Tests (labelled as tests): a proper box is endorsed; a ladder and an H with two bars are not. -/
 def boxLines : List Frag :=
